@@ -30,10 +30,11 @@ TEXT['C16'] = ("Readers against the published layouts, independent of this code'
          "Trusted: byte-I/O stand-ins. Not decided: MBTiles, tar, directory, async reader descent.")
 TEXT['C19'] = ("Panic-freedom of the binary decoders under contract, for arbitrary bytes: Verus proves read_varint/read_svarint/read_pbf_key/get_sub_reader/get_pbf_sub_reader/read_pbf_packed_uint32/read_blob/read_string (no overflow, no out-of-bounds, bounded allocation, termination), find_tile, filter_bbox build validation and the converter lookup for any coordinate; Kani proves FileHeader::from_blob, BlockDefinition::from_blob, HeaderV3::deserialize for ALL byte strings and EntriesV3::from_blob (bounded).",
          "Trusted: byte-I/O stand-ins, String::from_utf8. Not decided: JSON/CSV/VPL text parsers, vector-tile layer decoding, container opening around I/O.")
+TEXT['C11'] = ("Claimed for the byte-level core only: Verus proves the real varint/zigzag/PBF-key/packed/length-prefixed readers and writers against the protobuf wire-format rules for all u64/i64 (encoder = LEB128 specification, decoder = 7-bit-group rule with continuation bits, zigzag bijection by bit-vector proof), and the key/value tables of a layer: push appends exactly one entry per record at the next position (positional fidelity, duplicates included), add de-duplicates to the first position, get/find are total.",
+         "Trusted: byte-I/O stand-ins, HashMap via vstd's specification (obeys_key_model), T::clone returns an equal value. Not decided: the update operation itself, layer framing, feature codec, CSV join.")
 NA = {
  'C07': 'std::path / OS path resolution semantics decide the property; no contract on repository code can express it (Kani probe through real std::path timed out) — DESIGN §5',
- 'C10': 'not built yet',
- 'C11': 'not built yet',
+ 'C10': 'the merge chain add_from_layer -> decode_tag_ids -> encode_tag_ids iterates GeoProperties (a BTreeMap-backed repository type) and lives next to async stream code; bringing it under contract would need a stand-in for repository code (a model, not this family) - only the table primitives it relies on are verified (under C11)',
  'C12': 'quantifies over crash points of an I/O sequence inside async closures; no function contract reaches it — DESIGN §5',
  'C13': 'quantifies over thread schedules and the kernel file offset; Kani has no threads, code does not use Verus permission types — DESIGN §5',
  'C14': 'quantifies over completion orders of tokio tasks inside futures combinators — DESIGN §5',
